@@ -30,7 +30,7 @@ ASSUMPTIONS = ['cookie oracle applies to polling/JSONP opens (a WebSocket open '
                'the probe handshake is attempted only when '
                'max_http_buffer_size >= 6 (the probe frame itself)']
 REQUIRED = ['open_reference', 'upgrade_probe', 'reject_followups', 'cookie',
-            'greeting_after_open', 'overlapping_opens']
+            'greeting_after_open', 'overlapping_opens', 'cookie_sequences']
 SHARD_TIMEOUT = {'quick': 300, 'thorough': 3000}
 
 PI = [25, 1, 0.5, 1.5, 0.25, [25, 5], [1.5, 0.7], [0.2, 0.1]]
@@ -410,6 +410,62 @@ def run_overlap(rec, spec):
         sim.teardown()
 
 
+def run_cookie_sequence(rec, spec):
+    """Several handshakes on ONE server whose cookie has computed (callable)
+    attributes: every cookie carries the sid of its own OPEN packet and the
+    attribute values the configuration yields AT THAT handshake."""
+    from vf.simbase import decode_payload
+    srv = spec['srv']
+    case = {'cookieseq': dict(spec)}
+    rec.evaluations += 1
+    rec.count('cookie_sequences')
+    rec.key('cookieseq/%s' % srv)
+    state = {'age': 100, 'secure': True}
+    cookie = {'name': 'k', 'Max-Age': lambda: str(state['age']),
+              'Secure': lambda: state['secure'], 'path': '/p',
+              'SameSite': 'Lax'}
+    sim = scen.make_sim(srv, server_kwargs={'cookie': cookie})
+
+    def Vv(key, msg):
+        rec.viol(key, msg + ' | COOKIE SEQUENCE server=%s' % srv, case)
+    try:
+        for k in range(5):
+            state['age'] = 100 + 7 * k
+            state['secure'] = (k % 2 == 0)
+            h = sim.open_polling()
+            t = h.open_ticket
+            if h.sid is None:
+                Vv('open-failed', 'open %d failed: %r' % (k, t.status))
+                return
+            rec.count('cookie')
+            sc = t.header_all('Set-Cookie')
+            if len(sc) != 1:
+                Vv('cookie-count', 'open %d: Set-Cookie headers %r' % (k, sc))
+                return
+            parts = [x.strip() for x in sc[0].split(';')]
+            attrs = {}
+            for part in parts[1:]:
+                a, _, v = part.partition('=')
+                attrs[a] = v if _ else True
+            if parts[0] != 'k=' + h.sid:
+                Vv('cookie-sid', 'open %d: cookie %r does not carry the sid '
+                   '%r' % (k, parts[0], h.sid))
+            want = {'Max-Age': str(state['age']), 'path': '/p',
+                    'SameSite': 'Lax'}
+            if state['secure']:
+                want['Secure'] = True
+            if attrs != want:
+                Vv('cookie-attributes', 'handshake #%d on this server: cookie '
+                   'attributes %r, the configuration yields %r now' % (
+                       k + 1, attrs, want))
+                return
+        if not (callable(cookie['Max-Age']) and callable(cookie['Secure'])):
+            Vv('cookie-config-rewritten', 'the application\'s cookie '
+               'configuration dict was modified: %r' % (cookie,))
+    finally:
+        sim.teardown()
+
+
 def plan(tier, seed):
     allc = cells(tier, seed)
     rng = gen.mkrng('c11', seed)
@@ -441,7 +497,8 @@ def plan(tier, seed):
         for outs in ([None, None], [None, None, None], [None, False],
                      [False, None], ['no', None, True], [None, 'raise']):
             over.append({'srv': srv, 'n': len(outs), 'outcomes': outs})
-    shards.append({'cells': [], 'overlaps': over})
+    shards.append({'cells': [], 'overlaps': over,
+                   'cookieseqs': [{'srv': x} for x in SRV]})
     return shards
 
 
@@ -449,6 +506,8 @@ def run_shard(spec):
     rec = Rec()
     for o in spec.get('overlaps', []):
         scen.run_cases(rec, [o], run_overlap)
+    for o in spec.get('cookieseqs', []):
+        scen.run_cases(rec, [o], run_cookie_sequence)
     scen.run_cases(rec, [tuple(c) for c in spec['cells']], run_cell)
     if len(spec['cells']) > 5000:
         rec.extra['exhaustive'] = True
@@ -459,6 +518,9 @@ def replay(case):
     rec = Rec()
     if 'overlap' in case:
         run_overlap(rec, case['overlap'])
+        return rec.violations
+    if 'cookieseq' in case:
+        run_cookie_sequence(rec, case['cookieseq'])
         return rec.violations
     run_cell(rec, tuple(case['cell']))
     return rec.violations
